@@ -242,6 +242,75 @@ class Session:
             return 200, self.forced_response
         return 200, self.server.handle(body)[0]
 
+    def _subscribe(self, method, kwargs, out):
+        """Drive a generated subscription method over a scripted graphql-transport-ws socket (ack, then complete):
+        out["request"].content is the payload of the subscribe frame, so callers read it like an HTTP body."""
+        import sys
+        import types
+
+        sent = []
+
+        class _WS:
+            def __init__(self):
+                self.queue = []
+
+            async def send(self, msg):
+                m = json.loads(msg)
+                sent.append(m)
+                if m.get("type") == "connection_init":
+                    self.queue.append(json.dumps({"type": "connection_ack"}))
+                elif m.get("type") == "subscribe":
+                    self.queue.append(json.dumps({"type": "complete", "id": m.get("id")}))
+
+            async def recv(self):
+                return self.queue.pop(0)
+
+            def __aiter__(self):
+                return self
+
+            async def __anext__(self):
+                if self.queue:
+                    return self.queue.pop(0)
+                raise StopAsyncIteration
+
+            async def close(self, *a, **k):
+                self.queue.clear()
+
+        class _Connect:
+            def __init__(self, *a, **k):
+                pass
+
+            async def __aenter__(self):
+                return _WS()
+
+            async def __aexit__(self, *a):
+                return False
+
+        patched = []
+        for cls in type(self.client).__mro__:
+            mod = sys.modules.get(cls.__module__)
+            if isinstance(mod, types.ModuleType) and hasattr(mod, "ws_connect"):
+                patched.append((mod, mod.ws_connect))
+                mod.ws_connect = _Connect
+
+        async def drive():
+            items = []
+            async for item in method(**kwargs):
+                items.append(item)
+            return items
+
+        try:
+            out["value"] = asyncio.run(drive())
+        except BaseException as exc:  # noqa: BLE001
+            out["exc"] = exc
+        finally:
+            for mod, orig in patched:
+                mod.ws_connect = orig
+        sub = [m for m in sent if m.get("type") == "subscribe"]
+        if sub:
+            out["request"] = types.SimpleNamespace(content=json.dumps(sub[0].get("payload") or {}).encode(), frames=sent)
+        return out
+
     def call(self, call):
         """Returns dict(op, method, kwargs, value, exc, rec, request, problem)."""
         op = self.ops[call["op"]]
@@ -263,6 +332,8 @@ class Session:
                 return out
         out["kwargs"] = kwargs
         out["method"] = method
+        if op["kind"] == "subscription":
+            return self._subscribe(method, kwargs, out)
         n0, r0 = len(self.server.calls), len(self.transport.requests)
         out["value"], out["exc"] = run_call(self.case, method, kwargs)
         if len(self.server.calls) > n0:
